@@ -15,6 +15,11 @@
 // abort.go ends one endpoint's sending side ABRUPTLY in every configuration (reset, a TLS leg cut without
 // close_notify / inside a record / by a record that does not verify) while the other endpoint waits or is
 // still sending: the end must be relayed at once, not by the grace timer (machine with copy errors, `arun`).
+// eos.go crosses how the legs are WRAPPED (conntrack with TrackTraffic on both legs, TLS 1.2 / 1.3, rate-limited,
+// scripted connections) with how the last bytes and the END of a stream reach the proxy (the last bytes in one
+// piece with the half-close - under TLS 1.2 in one segment with close_notify -, a scripted leg whose Read returns
+// them together with io.EOF, or the half-close after a pause): whichever copy loop io.CopyBuffer ends up in must
+// deliver what the generic one does (Model/C03.lean `copyLoop`, verb `copyloop`).
 package c03
 
 import (
@@ -245,6 +250,8 @@ func genCase(r *core.Rand, mode, order string, quick bool) *tunnelCase {
 		// none of it may show in the tunnel (regression target of the repaired finding F52)
 		tc.UpgradeReq = r.Range(1, len(upgradeReqs)-1)
 	}
+	// how the two streams end (eos.go): the last bytes and the half-close together, or apart
+	addEOS(r, tc, 30)
 	return tc
 }
 
@@ -380,6 +387,10 @@ func Run(ctx *core.Ctx) {
 	close(jobs)
 	wg.Wait()
 	ctx.Extra("payload_bytes_delivered", bytesMoved.Load())
+	// how the legs are wrapped x how the end of a stream arrives (eos.go): configurations of their own
+	if ctx.NumFindings() < 4 && os.Getenv("VERIF_C03_NO_EOS") == "" && (os.Getenv("VERIF_C03_MODES") == "" || os.Getenv("VERIF_C03_EOS_MODES") != "") {
+		runEOSPhase(ctx, pool)
+	}
 	// the grace period on the clock: a phase of its own (the period is a process-wide variable of the proxy)
 	if ctx.NumFindings() < 4 && os.Getenv("VERIF_C03_NO_GRACE") == "" {
 		runGracePhase(ctx, pool, modes)
@@ -549,6 +560,7 @@ func (e *env) evaluate(ctx *core.Ctx, tc *tunnelCase, obs *tunnelObs) {
 	ctx.Case(string(key), nontrivial)
 	ctx.Count("mode/" + tc.Mode)
 	ctx.Count("order/" + tc.Order)
+	e.countEOS(ctx, tc)
 	ctx.Count("up-size/" + sizeBucket(tc.Up1+tc.Up2))
 	ctx.Count("down-size/" + sizeBucket(tc.Down1+tc.Down2))
 	switch {
@@ -721,6 +733,12 @@ func (e *env) evaluate(ctx *core.Ctx, tc *tunnelCase, obs *tunnelObs) {
 	if bothFin && obs.HeadLen+obs.ReplyLen+obs.Up.Sent+obs.Down.Sent <= 16384 {
 		ctx.Count("model/run-on-real-bytes")
 		if !e.compareWithModelRun(ctx, tc, obs, impl) {
+			return
+		}
+	}
+	// a scripted source leg (eos.go): the model's copy loop on the very read results the proxy was handed
+	if bothFin && (obs.upReads != nil || obs.downReads != nil) {
+		if !e.compareCopyLoop(ctx, tc, obs, impl) {
 			return
 		}
 	}
